@@ -75,13 +75,14 @@ def check(prog: Program, tier: str) -> Result:
     _r4_m(prog, res)
     _r4_n(prog, res)
     _r4_o(prog, res)
+    _r4_q(prog, res)
     # R4.p: arithmetic / ordering on the value of a matched constant raises TypeError inside the formatter for 'a' or None
     # unless the selecting template pins the value type - decided by the C17 check (R17.9), adopted
     from . import c17 as _c17
     _tmp = Result("C17", "", "")
     _c17._r17_9(prog, _tmp)
     res.adopt(_tmp, {"R17.9"}, "R4.p", "an unpinned constant can be a str or None: the operation raises TypeError out of the rule and out of format_code")
-    res.floors.update({"R4.p": 3, "R4.o": 2, "R4.n": 2, "R4.m": 2, "R4.a": 25, "R4.b": 200, "R4.c": 4, "R4.d": 18, "R4.e": 8, "R4.f": 40, "R4.h": 2, "R4.i": 2, "R4.j": 5, "R4.k": 1})
+    res.floors.update({"R4.q": 30, "R4.p": 3, "R4.o": 2, "R4.n": 2, "R4.m": 2, "R4.a": 25, "R4.b": 200, "R4.c": 4, "R4.d": 18, "R4.e": 8, "R4.f": 40, "R4.h": 2, "R4.i": 2, "R4.j": 5, "R4.k": 1})
     return res
 
 
@@ -906,6 +907,254 @@ def _r4_o(prog: Program, res: Result) -> None:
         raise AnalysisError("no loosely annotated option of a public entry point found")
 
 
+MAYBE_EMPTY_FIELDS = {"args", "elts", "keywords", "decorator_list", "orelse", "finalbody", "handlers", "ifs", "bases", "posonlyargs", "kwonlyargs",
+                      "defaults", "kw_defaults", "keys", "values", "body", "type_params"}
+GRAMMAR_MIN = {"body": 1}       # every block has a statement - except the body of a Module
+
+
+def _r4_q(prog: Program, res: Result) -> None:
+    """Constant-index access to a list field of a syntax node that Python's grammar allows to be EMPTY (`call.args[0]`,
+    `node.orelse[0]`, `root.body[-1]`, `f.elts[0]`): IndexError for `x.append()`, `sum()`, an empty module.  The access is
+    justified by (a) a fact on the path about the list itself - truthiness, a len() comparison, match_template(list, [..]);
+    (b) the TEMPLATE that selected the node: the loop source (core.walk / filter_nodes / walk_wildcard / walk_sequence) or a
+    match_template fact on the path, read into a shape term (sa/shapes.py) and followed along the access path - the field
+    must be pinned to a list display long enough; (c) the grammar (`body` of anything but a Module).  If the selecting
+    template is known and leaves the field open, the access is a violation; if the node's origin cannot be read (a
+    parameter, an unrecognised source) the instance is undecided."""
+    from ..defuse import bindings
+    from ..pathcond import PathAnalysis, entails
+    from .. import shapes as sh
+
+    def access_path(e: ast.AST):
+        path = []
+        while True:
+            if isinstance(e, ast.Attribute):
+                path.append(("attr", e.attr))
+                e = e.value
+            elif isinstance(e, ast.Subscript) and isinstance(e.slice, ast.Constant) and isinstance(e.slice.value, int):
+                path.append(("idx", e.slice.value))
+                e = e.value
+            elif isinstance(e, ast.Subscript) and isinstance(e.slice, ast.UnaryOp) and isinstance(e.slice.op, ast.USub) and isinstance(e.slice.operand, ast.Constant):
+                path.append(("idx", -e.slice.operand.value))
+                e = e.value
+            else:
+                break
+        return (e.id if isinstance(e, ast.Name) else None), list(reversed(path))
+
+    def follow(shape, path):
+        for kind, v in path:
+            shape = sh.field(shape, v) if kind == "attr" else sh.index(shape, v)
+        return shape
+    n = 0
+    for fn in prog.funcs.values():
+        sites = []
+        for x in walk_own(fn.node):
+            if isinstance(x, ast.Subscript) and isinstance(x.ctx, ast.Load) and isinstance(x.value, ast.Attribute) and x.value.attr in MAYBE_EMPTY_FIELDS:
+                i = x.slice.value if isinstance(x.slice, ast.Constant) and isinstance(x.slice.value, int) and not isinstance(x.slice.value, bool) else \
+                    (-x.slice.operand.value if isinstance(x.slice, ast.UnaryOp) and isinstance(x.slice.op, ast.USub) and isinstance(x.slice.operand, ast.Constant)
+                     and isinstance(x.slice.operand.value, int) else None)
+                if i is not None:
+                    sites.append((x, i))
+        if not sites:
+            continue
+        pa = PathAnalysis(prog, fn)
+        S = sh.Shapes(prog, fn)
+        parents_of = {}
+        for a in ast.walk(fn.node):
+            for c in ast.iter_child_nodes(a):
+                parents_of[id(c)] = a
+
+        def enclosing(node):
+            out = []
+            a = parents_of.get(id(node))
+            while a is not None:
+                out.append(a)
+                a = parents_of.get(id(a))
+            return out
+        mt_calls = [c for c in ast.walk(fn.node) if isinstance(c, ast.Call) and (prog.dotted(c.func) or "").split(".")[-1] == "match_template" and len(c.args) >= 2]
+        tests = []
+        for a in ast.walk(fn.node):
+            if isinstance(a, (ast.If, ast.While, ast.IfExp, ast.Assert)):
+                tests.append(a.test)
+            elif isinstance(a, ast.BoolOp):
+                tests.extend(a.values)
+            elif isinstance(a, ast.UnaryOp) and isinstance(a.op, ast.Not):
+                tests.append(a.operand)
+            elif isinstance(a, ast.comprehension):
+                tests.extend(a.ifs)
+
+        def unwrap_iter(it, target):
+            """-> (call, target of the element) through sorted / list / reversed / enumerate / tuple wrappers."""
+            for _ in range(4):
+                if isinstance(it, ast.Call) and isinstance(it.func, ast.Name) and it.func.id in ("sorted", "list", "reversed", "tuple", "set") and it.args:
+                    it = it.args[0]
+                elif isinstance(it, ast.Call) and isinstance(it.func, ast.Name) and it.func.id == "enumerate" and it.args and isinstance(target, ast.Tuple) and len(target.elts) == 2:
+                    it, target = it.args[0], target.elts[1]
+                else:
+                    break
+            return it, target
+
+        def root_shapes(name: str, site: ast.AST, depth: int = 0):
+            """(shape of the node called `name` at site, is its origin known)"""
+            shape, known = sh.ANY, False
+            if depth > 4:
+                return shape, known
+            worlds = pa.worlds_at(site)
+            for c in mt_calls:
+                if isinstance(c.args[0], ast.Name) and c.args[0].id == name and worlds and all(entails(w.facts, pa.formula(c, w)) for w in worlds):
+                    shape, known = sh.meet(shape, S.shape(c.args[1])), True
+            for a in enclosing(site):
+                gens = [(a.iter, a.target)] if isinstance(a, (ast.For, ast.AsyncFor)) else \
+                    [(g.iter, g.target) for g in a.generators] if isinstance(a, (ast.ListComp, ast.SetComp, ast.GeneratorExp, ast.DictComp)) else []
+                for it, tg in gens:
+                    it, tg = unwrap_iter(it, tg)
+                    if not isinstance(it, ast.Call):
+                        # `for m in matches` where matches is the starred rest of a walk_sequence item
+                        if isinstance(it, ast.Name) and isinstance(tg, ast.Name) and tg.id == name:
+                            s2, k2 = seq_rest(it.id, site)
+                            if k2:
+                                shape, known = sh.meet(shape, s2), True
+                        continue
+                    d = (prog.dotted(it.func) or "").split(".")[-1]
+                    if d in ("walk", "filter_nodes") and len(it.args) >= 2 and isinstance(tg, ast.Name) and tg.id == name:
+                        shape, known = sh.meet(shape, S.shape(it.args[1])), True
+                    elif d == "walk_wildcard" and len(it.args) >= 2 and isinstance(tg, ast.Tuple) and tg.elts and isinstance(tg.elts[0], ast.Name) and tg.elts[0].id == name:
+                        shape, known = sh.meet(shape, S.shape(it.args[1])), True
+                    elif d in ("walk", "filter_nodes") and isinstance(tg, ast.Name) and tg.id == name:
+                        known = True
+                    elif d == "walk_sequence" and isinstance(tg, ast.Tuple):
+                        ts = seq_templates(it)
+                        for k, t_el in enumerate(tg.elts):
+                            if isinstance(t_el, ast.Name) and t_el.id == name and ts is not None and k < len(ts):
+                                shape, known = sh.meet(shape, ("node", {"root": S.shape(ts[k])}) if False else ("list", 1, False, None)), known
+                                # a match object: its [0] / .root is the node; recorded as a 'match' pseudo node
+                                shape, known = ("node", {"__match__": S.shape(ts[k])}), True
+            # single assignment from another access path
+            defs = [(st, v) for (st, v) in bindings(fn).get(name, []) if v is not None]
+            if not known and len(defs) == 1 and isinstance(defs[0][0], ast.Assign):
+                r2, p2 = access_path(defs[0][1])
+                if r2 is not None and r2 != name and p2:
+                    s2, k2 = root_shapes(r2, defs[0][0], depth + 1)
+                    if k2:
+                        shape, known = follow(unmatch(s2, p2), strip_match(p2)), True
+            return shape, known
+
+        def seq_templates(call: ast.Call):
+            ts: List[ast.AST] = []
+            for a in call.args[1:]:
+                if isinstance(a, ast.Starred):
+                    v = a.value
+                    if isinstance(v, ast.Name):
+                        d_ = [x for (_s, x) in bindings(fn).get(v.id, [])]
+                        v = d_[0] if len(d_) == 1 else v
+                    if isinstance(v, (ast.List, ast.Tuple)):
+                        ts.extend(v.elts)
+                    else:
+                        return None
+                else:
+                    ts.append(a)
+            return ts
+
+        def seq_rest(listname: str, site: ast.AST):
+            """`listname` is the starred rest of a walk_sequence item: every element is a match of the LAST template."""
+            for a in enclosing(site):
+                if isinstance(a, (ast.For, ast.AsyncFor)):
+                    it, tg = unwrap_iter(a.iter, a.target)
+                    if isinstance(it, ast.Call) and (prog.dotted(it.func) or "").split(".")[-1] == "walk_sequence" and isinstance(tg, ast.Tuple):
+                        if any(isinstance(e_, ast.Starred) and isinstance(e_.value, ast.Name) and e_.value.id == listname for e_ in tg.elts) \
+                                and any(k.arg == "expand_last" for k in it.keywords):
+                            ts = seq_templates(it)
+                            if ts:
+                                return ("node", {"__match__": S.shape(ts[-1])}), True
+            return sh.ANY, False
+
+        def unmatch(shape, path):
+            # a match object: [0] or .root gives the node
+            if shape[0] == "node" and "__match__" in shape[1] and path and path[0] in (("idx", 0), ("attr", "root")):
+                return shape[1]["__match__"]
+            return shape
+
+        def strip_match(path):
+            return path[1:] if path and path[0] in (("idx", 0), ("attr", "root")) else path
+        for x, i in sites:
+            n += 1
+            need = i + 1 if i >= 0 else -i
+            L = x.value
+            have, why = 0, []
+            fld = L.attr
+            root, path = access_path(L.value)
+            # (c) grammar
+            is_module = False
+            if fld == "body" and root is not None and not path:
+                for _s, v in bindings(fn).get(root, []):
+                    if isinstance(v, ast.Call) and (prog.dotted(v.func) or "").split(".")[-1] in ("parse",):
+                        is_module = True
+            if fld == "body" and isinstance(L.value, ast.Call) and (prog.dotted(L.value.func) or "").split(".")[-1] == "parse":
+                is_module = True
+            g = 0 if is_module else GRAMMAR_MIN.get(fld, 0)
+            if g:
+                have, why = g, ["every block has at least one statement"]
+            # (a) facts about the list itself
+            worlds = pa.worlds_at(x)
+            Ltxt = norm(L)
+
+            def holds(test, pol=True):
+                return bool(worlds) and all(entails(w.facts, pa.formula(test, w, pol)) for w in worlds)
+            for t in tests:
+                if norm(t) == Ltxt and holds(t):
+                    if have < 1:
+                        have, why = 1, [f"`{Ltxt}` is known to be non-empty here"]
+                if isinstance(t, ast.Compare) and len(t.ops) == 1 and isinstance(t.left, ast.Call) and isinstance(t.left.func, ast.Name) and t.left.func.id == "len" \
+                        and t.left.args and norm(t.left.args[0]) == Ltxt and isinstance(t.comparators[0], ast.Constant) and isinstance(t.comparators[0].value, int):
+                    k = t.comparators[0].value
+                    op = t.ops[0]
+                    lo = None
+                    if holds(t):
+                        lo = {ast.Eq: k, ast.GtE: k, ast.Gt: k + 1}.get(type(op))
+                        if isinstance(op, ast.NotEq) and k == 0:
+                            lo = 1
+                    elif holds(t, False):
+                        lo = {ast.Lt: k, ast.LtE: k + 1, ast.NotEq: k}.get(type(op))
+                        if isinstance(op, ast.Eq) and k == 0:
+                            lo = 1
+                    if lo is not None and lo > have:
+                        have, why = lo, [f"`{norm(t)}` decides the length on this path"]
+            for c in mt_calls:
+                a0 = c.args[0]
+                # match_template(L, [..]) and match_template(L[-k:], [k templates]): the list has at least that many elements
+                tail = isinstance(a0, ast.Subscript) and isinstance(a0.slice, ast.Slice) and a0.slice.upper is None and a0.slice.step is None \
+                    and isinstance(a0.slice.lower, ast.UnaryOp) and isinstance(a0.slice.lower.op, ast.USub) and isinstance(a0.slice.lower.operand, ast.Constant) \
+                    and norm(a0.value) == Ltxt
+                if (norm(a0) == Ltxt or tail) and holds(c):
+                    lo = sh.min_len(S.shape(c.args[1]))
+                    if tail:
+                        lo = min(lo, a0.slice.lower.operand.value)
+                    if lo > have:
+                        have, why = lo, [f"`{short(c, 60)}` holds on this path"]
+            # (b) the selecting template
+            known = False
+            if root is not None:
+                rs, known = root_shapes(root, x)
+                if known:
+                    lst = sh.field(follow(unmatch(rs, path), strip_match(path) if rs[0] == "node" and "__match__" in rs[1] else path), fld)
+                    lo = sh.min_len(lst)
+                    if lo > have:
+                        have, why = lo, [f"the template that selected `{root}` pins .{fld} to a list of at least {lo}"]
+                    if not sh.readable(lst):
+                        known = False      # the template is there but could not be read: no verdict from it
+            text = f"{short(x, 60)}"
+            if have >= need:
+                res.ok("R4.q", fn.loc(x), fn.fq, text, why[0] if why else "")
+            elif known:
+                res.bad("R4.q", fn.loc(x), fn.fq, text,
+                        f"`{root}` is selected by a template that leaves .{fld} open (it may have fewer than {need} element(s)) and no test of `{Ltxt}` is on the path: "
+                        f"IndexError for a node whose {fld} list is empty (`x.append()`, `f()`, an `if` without else)")
+            else:
+                res.undecided("R4.q", fn.loc(x), fn.fq, text, f"origin of `{root or norm(L.value)}` not readable (parameter or unrecognised source); no length fact for `{Ltxt}` on the path")
+    if n == 0:
+        raise AnalysisError("no constant-index access to a list field found")
+
+
 def _r4_l(prog: Program, res: Result) -> None:
     """Parsing a SNIPPET: core.parse / ast.parse of a text that is not the function's own text parameter (the spelling of
     one literal, an uncommented comment block, ...) raises SyntaxError unless the snippet was validated first.  A
@@ -1211,6 +1460,16 @@ class ValidPA(PathAnalysis):
 from ..selftest import Variant  # noqa: E402
 
 VARIANTS = [
+    Variant("append-without-argument-indexed", "FIRE", "fixes",
+            "        if any(\n            m[0].value.func.attr in {\"append\", \"add\"} and len(m[0].value.args) != 1\n            for m in matches\n        ):\n            continue  # x.append() and x.add(1, 2) raise TypeError when they run, there is no element\n\n", "", "R4.q"),
+    Variant("template-no-longer-pins-the-argument-list", "FIRE", "performance",
+            "    iter_template = ast.Call(func=ast.Name(id=(\"iter\", \"list\", \"tuple\")), args=[object])", "    iter_template = ast.Call(func=ast.Name(id=(\"iter\", \"list\", \"tuple\")))", "R4.q"),
+    Variant("length-test-instead-of-template-pin", "SILENT", "performance",
+            "    iter_template = ast.Call(func=ast.Name(id=(\"iter\", \"list\", \"tuple\")), args=[object])\n    template = (ast.For(iter=iter_template), ast.comprehension(iter=iter_template))\n\n    for node in core.walk(root, template):\n",
+            "    iter_template = ast.Call(func=ast.Name(id=(\"iter\", \"list\", \"tuple\")))\n    template = (ast.For(iter=iter_template), ast.comprehension(iter=iter_template))\n\n    for node in core.walk(root, template):\n        if len(node.iter.args) != 1:\n            continue\n"),
+    Variant("set-call-argument-indexed-without-test", "FIRE", "fixes",
+            "            if assigned_value.args:\n                elts = [ast.Starred(value=assigned_value.args[0])] + other_elts\n            else:\n                elts = other_elts\n",
+            "            elts = [ast.Starred(value=assigned_value.args[0])] + other_elts\n", "R4.q"),
     Variant("preserve-option-taken-as-it-comes", "FIRE", "main", "    preserve = frozenset(preserve)  # Any collection is accepted, but the fixes use set operators\n\n", "", "R4.o"),
     Variant("preserve-option-normalised-with-set", "SILENT", "main", "    preserve = frozenset(preserve)  # Any collection is accepted, but the fixes use set operators\n", "    preserve = set(preserve) | set()\n"),
     Variant("sympy-parser-unfenced", "FIRE", "symbolic_math",
